@@ -211,12 +211,16 @@ impl Check for C09 {
                 return;
             }
             let mut paths: Vec<PathSpec> = vec![PathSpec::new(vec![POp::M(a.0, a.1), POp::L(b.0, b.1)])];
-            for c in &g {
+            for (ci, c) in g.iter().enumerate() {
                 if *c == b || *c == a {
                     continue;
                 }
                 paths.push(PathSpec::new(vec![POp::M(a.0, a.1), POp::L(b.0, b.1), POp::L(c.0, c.1)]));
                 paths.push(PathSpec::new(vec![POp::M(a.0, a.1), POp::L(b.0, b.1), POp::L(c.0, c.1), POp::Z]));
+                // the longer shapes: in the quick tier for three third points per (a, b) only
+                if q && (ci + s) % 3 != 0 {
+                    continue;
+                }
                 {
                     let d = g[(s + 4) % g.len()];
                     if d != a && d != b && d != *c {
@@ -225,6 +229,8 @@ impl Check for C09 {
                         // a subpath begun implicitly by a LineTo right after Close (it starts at the
                         // closed subpath's first point, with the pattern restarted)
                         paths.push(PathSpec::new(vec![POp::M(a.0, a.1), POp::L(b.0, b.1), POp::L(c.0, c.1), POp::Z, POp::L(d.0, d.1)]));
+                        // two closed subpaths, the second begun by LineTo directly after the first Close
+                        paths.push(PathSpec::new(vec![POp::M(a.0, a.1), POp::L(b.0, b.1), POp::L(c.0, c.1), POp::Z, POp::L(d.0, d.1), POp::L(b.0, b.1), POp::Z]));
                         // a MoveTo exactly to the point the previous subpath ended on still starts a
                         // new subpath (pattern restarted, caps instead of a join)
                         paths.push(PathSpec::new(vec![POp::M(a.0, a.1), POp::L(b.0, b.1), POp::M(b.0, b.1), POp::L(c.0, c.1)]));
@@ -294,6 +300,26 @@ impl Check for C09 {
                 }
             }
         });
+        // closed subpaths whose length is exactly a dash boundary (integer rectangles, perimeter 80):
+        // a dash ending exactly at the closing point is still joined to the dash starting there
+        {
+            let rects: Vec<[(f32, f32); 4]> = vec![[(8., 8.), (28., 8.), (28., 28.), (8., 28.)], [(5., 12.), (35., 12.), (35., 22.), (5., 22.)], [(30., 6.), (30., 31.), (15., 31.), (15., 6.)]];
+            let exact: Vec<(Vec<f32>, f32)> = vec![(vec![80., 5.], 0.), (vec![16., 16.], 0.), (vec![24., 8.], 8.), (vec![8., 8.], 0.), (vec![32., 16.], 16.), (vec![5., 3.], 0.), (vec![80.], 0.), (vec![72., 8.], -8.), (vec![160., 1.], 0.), (vec![16., 16.], 16.)];
+            run.bound("exact lengths", format!("{} integer rectangles (perimeter 80) as closed subpaths, alone and followed by a LineTo tail x {} (array, offset) pairs whose boundaries fall exactly on the closing point x 2 styles", rects.len(), exact.len()));
+            run.par(rects.len() * exact.len(), |s, l| {
+                let r = rects[s / exact.len()];
+                let (arr, off) = &exact[s % exact.len()];
+                let closed = vec![POp::M(r[0].0, r[0].1), POp::L(r[1].0, r[1].1), POp::L(r[2].0, r[2].1), POp::L(r[3].0, r[3].1), POp::Z];
+                let mut tail = closed.clone();
+                tail.push(POp::L(r[2].0 + 3.0, r[2].1 + 4.0));
+                for ops in [closed, tail] {
+                    for &(w, cap, join) in &[(2.0f32, 0u8, 0u8), (6.0, 1, 1)] {
+                        let st = StyleSpec { width: w, cap, join, miter: 4.0, dash: arr.clone(), offset: *off };
+                        account(run, 3000 + s, l, &PathSpec::new(ops.clone()), &st, false);
+                    }
+                }
+            });
+        }
         // long paths, thousands of dashes, dash arrays with a hundred entries
         {
             let mut zig: Vec<POp> = vec![POp::M(3.3, 2.1)];
